@@ -1,3 +1,238 @@
 package main
 
-func runThorough(c *Ctx, w *World) {}
+import (
+	"fmt"
+	"os"
+	"path/filepath"
+	"sort"
+	"strings"
+
+	"golang.org/x/tools/go/callgraph"
+	"golang.org/x/tools/go/callgraph/cha"
+	"golang.org/x/tools/go/callgraph/vta"
+	"golang.org/x/tools/go/ssa"
+	"golang.org/x/tools/go/ssa/ssautil"
+)
+
+// runThorough: the extra work of the thorough tier. None of it can turn a failing verdict into a
+// passing one; the cross-checks add obligations (which can fail), the sensitivity mutants only add evidence.
+func runThorough(c *Ctx, w *World) {
+	id := c.Property
+	// ---- 1. whole-program VTA call graph: every call edge into a module function that the rules'
+	// resolution (static callees + module-interface dispatch) does not know is a soundness hole.
+	for _, p := range []*Prog{w.gcp, w.prober, w.csum} {
+		if p == nil || !p.AllSSA {
+			continue
+		}
+		vtaCrossCheck(c, p)
+	}
+	// ---- 2. the same property on a 32-bit configuration must yield the same obligations
+	if os.Getenv("VERIF_SKIP_386") == "" {
+		c2 := newCtx(id, "quick", c.Repo, c.Verif)
+		w2 := &World{c: c2, repo: w.repo, all: false, goarch: "386"}
+		resetGlobals()
+		func() {
+			defer func() {
+				if r := recover(); r != nil {
+					c2.fatalf("panic on GOARCH=386: %v", r)
+				}
+			}()
+			props[id](c2, w2)
+		}()
+		resetGlobals()
+		if w.gcp != nil {
+			equivCtx.p, equivCtx.sums, equivCtx.lf, equivCtx.done = w.gcp, w.gcpSums, w.gcpLF, map[*ssa.Function]bool{}
+		}
+		a, b := statusMap(c), statusMap(c2)
+		var diff []string
+		for k, v := range a {
+			if strings.HasPrefix(k, "thorough.") {
+				continue
+			}
+			if b[k] != v {
+				diff = append(diff, fmt.Sprintf("%s: amd64=%s 386=%s", k, v, b[k]))
+			}
+		}
+		for k, v := range b {
+			if _, ok := a[k]; !ok {
+				diff = append(diff, fmt.Sprintf("%s: amd64=absent 386=%s", k, v))
+			}
+		}
+		sort.Strings(diff)
+		if len(diff) > 0 || len(c2.fatal) > 0 {
+			c.fail("thorough.goarch386", "same obligations on GOARCH=386", "-", fmt.Sprintf("the property's obligations differ between GOARCH=amd64 and GOARCH=386 (%d differences, %d load errors): build-constrained or width-dependent code escapes the default analysis", len(diff), len(c2.fatal)), append(diff, c2.fatal...)...)
+		} else {
+			c.ok("thorough.goarch386", "same obligations on GOARCH=386", "-", fmt.Sprintf("re-ran the whole rule set with GOARCH=386: identical %d obligations and statuses", len(b)))
+		}
+	}
+	// ---- 3. sensitivity mutants (evidence only)
+	runMutants(c, w)
+}
+
+func resetGlobals() {
+	loadRep = map[ssa.Value]string{}
+	equivCtx.p, equivCtx.sums, equivCtx.lf, equivCtx.done = nil, nil, nil, nil
+}
+
+func statusMap(c *Ctx) map[string]string {
+	m := map[string]string{}
+	for _, o := range c.Obs {
+		m[o.Rule+" | "+o.Construct] = o.Status
+	}
+	return m
+}
+
+// vtaCrossCheck compares, for every module function, the callers found by the rules' resolution with
+// the callers in the VTA call graph of the whole program.
+func vtaCrossCheck(c *Ctx, p *Prog) {
+	all := ssautil.AllFunctions(p.SSA)
+	g := vta.CallGraph(all, cha.CallGraph(p.SSA))
+	own := map[*ssa.Function]bool{}
+	for _, f := range p.Funcs {
+		own[f] = true
+	}
+	mine := map[[2]*ssa.Function]bool{}
+	for _, f := range p.Funcs {
+		eachInstr(f, func(in ssa.Instruction) {
+			if cc := callCommon(in); cc != nil {
+				for _, callee := range p.calleesOf(cc) {
+					mine[[2]*ssa.Function{f, callee}] = true
+				}
+			}
+		})
+	}
+	var missing []string
+	edges := 0
+	callgraph.GraphVisitEdges(g, func(e *callgraph.Edge) error {
+		caller, callee := e.Caller.Func, e.Callee.Func
+		if !own[callee] {
+			return nil
+		}
+		// unwrap synthetic wrappers on the caller side (bound-method closures, thunks): attribute to the wrapper's creator
+		if !own[caller] {
+			if caller != nil && caller.Synthetic != "" {
+				return nil // wrapper → real method: the wrapper's own callers are what matters and are visited separately
+			}
+			// a call from outside the module (gRPC calling Pick, timers calling closures): entry point, expected
+			return nil
+		}
+		edges++
+		if !mine[[2]*ssa.Function{caller, callee}] {
+			// calls through function values (closures invoked via variables, timers) are legitimate dynamic edges:
+			// they are acceptable only if the callee is treated as an external entry by the lock analysis
+			missing = append(missing, fmt.Sprintf("%s → %s at %s", fname(caller), fname(callee), p.ipos(e.Site)))
+		}
+		return nil
+	})
+	sort.Strings(missing)
+	// dynamic edges into functions that the rules already treat as externally entered are fine
+	lf := buildLockFacts(p)
+	var bad []string
+	for _, m := range missing {
+		callee := strings.TrimSpace(strings.SplitN(strings.SplitN(m, " → ", 2)[1], " at ", 2)[0])
+		ext := false
+		for f := range lf.External {
+			if fname(f) == callee && lf.External[f] {
+				ext = true
+			}
+		}
+		if !ext {
+			bad = append(bad, m)
+		}
+	}
+	construct := "module call edges (" + filepath.Base(p.Dir) + ")"
+	if len(bad) > 0 {
+		c.fail("thorough.callgraph", construct, "-", fmt.Sprintf("the whole-program VTA call graph has %d call edge(s) into module functions that the rules' callee resolution does not see and whose callee is not treated as an entry point", len(bad)), bad...)
+	} else {
+		c.ok("thorough.callgraph", construct, "-", fmt.Sprintf("all %d intra-module call edges of the VTA whole-program call graph are known to the rules' callee resolution (static callees + module-interface dispatch); %d dynamic edge(s) target functions already treated as entry points", edges, len(missing)))
+	}
+	c.Extra["vta_edges_into_module"] = edges
+}
+
+// ---- sensitivity mutants ----
+
+type mutant struct {
+	Prop   string
+	File   string // relative to the repository root
+	Old    string
+	New    string
+	Expect string // "detect": the property's rules must report; "silent": behaviour-preserving, rules must stay quiet
+	Note   string
+}
+
+func runMutants(c *Ctx, w *World) {
+	type res struct {
+		Note, Expect, Outcome string
+		Rules                 []string
+	}
+	var results []res
+	applied, detected, skipped, mismatches := 0, 0, 0, 0
+	for _, m := range mutantTable {
+		if m.Prop != c.Property {
+			continue
+		}
+		path := filepath.Join(w.repo, m.File)
+		src, err := os.ReadFile(path)
+		if err != nil || strings.Count(string(src), m.Old) != 1 {
+			skipped++
+			results = append(results, res{m.Note, m.Expect, "skipped: anchor text not found exactly once", nil})
+			continue
+		}
+		mutated := strings.Replace(string(src), m.Old, m.New, 1)
+		c2 := newCtx(c.Property, "quick", c.Repo, c.Verif)
+		c2.Known = c.Known
+		w2 := &World{c: c2, repo: w.repo, all: false, overlay: map[string][]byte{path: []byte(mutated)}}
+		resetGlobals()
+		func() {
+			defer func() {
+				if r := recover(); r != nil {
+					c2.fatalf("panic: %v", r)
+				}
+			}()
+			props[c.Property](c2, w2)
+		}()
+		resetGlobals()
+		if len(c2.fatal) > 0 && strings.Contains(strings.Join(c2.fatal, " "), "load") {
+			skipped++
+			results = append(results, res{m.Note, m.Expect, "skipped: mutant does not type-check", nil})
+			continue
+		}
+		applied++
+		var rules []string
+		for _, o := range c2.Obs {
+			if o.Status == "fail" || o.Status == "undecided" {
+				known := false
+				for _, k := range c.Known {
+					if k.Rule == o.Rule && k.Construct == o.Construct {
+						known = true
+					}
+				}
+				if !known {
+					rules = append(rules, o.Rule+" @ "+o.Construct)
+				}
+			}
+		}
+		fired := len(rules) > 0 || len(c2.fatal) > 0
+		outcome := "silent"
+		if fired {
+			outcome = "detected"
+			detected++
+		}
+		if (m.Expect == "detect") != fired {
+			mismatches++
+			outcome += " (UNEXPECTED)"
+		}
+		if len(rules) > 4 {
+			rules = rules[:4]
+		}
+		results = append(results, res{m.Note, m.Expect, outcome, rules})
+	}
+	if w.gcp != nil {
+		equivCtx.p, equivCtx.sums, equivCtx.lf, equivCtx.done = w.gcp, w.gcpSums, w.gcpLF, map[*ssa.Function]bool{}
+	}
+	c.Extra["sensitivity"] = map[string]interface{}{
+		"explanation": "seeded edits of the current sources applied in memory (packages.Config.Overlay), type-checked and analysed with the same rules; 'detect' mutants break the property and must be reported, 'silent' mutants preserve behaviour and must not be; results never change the exit status",
+		"applied":     applied, "detected": detected, "skipped": skipped, "unexpected": mismatches, "results": results,
+	}
+	fmt.Printf("sensitivity: %d mutant(s) applied, %d detected, %d skipped, %d unexpected outcome(s)\n", applied, detected, skipped, mismatches)
+}
